@@ -13,6 +13,7 @@ def run(ctx):
     reach = pr.rule_panic_free(ctx, "R10.1", roots, "GdsLibrary::from_bytes/open", scope_prefixes=["gds21::"], floor=40)
     pr.rule_acyclic(ctx, "R10.3", reach, "GdsLibrary::from_bytes/open", ["gds21::", "layout21utils::"])
     gr.rule_exact_reads(ctx, None, "R10.6")
+    gr.rule_repeatable_records(ctx, None, "R10.7")
     cg = pr.callgraph(F)
 
     # ---- R10.2 loop progress
